@@ -37,7 +37,7 @@ ASSUMPTIONS = [
     'POST /media/inspect needs Flask\'s optional async support (asgiref), absent from this environment: its RuntimeError is not judged; the outbound-fetch url field is never used (no network)',
     'shims + werkzeug test client as HTTP boundary',
 ]
-REQUIRED_COUNTERS = ['e.requests', 'e.followed_urls', 'a.requests', 'a.path_requests', 'd.requests', 'a.options_covered', 'b.parser_inputs', 'b.http_uploads', 'c.sequences',
+REQUIRED_COUNTERS = ['a.requests_with_headers', 'e.requests', 'e.followed_urls', 'a.requests', 'a.path_requests', 'd.requests', 'a.options_covered', 'b.parser_inputs', 'b.http_uploads', 'c.sequences',
                      'c.synthetic_seen', 'reach.check_for_synthetic_http_error', 'reach.calculate_injected_error_segments',
                      'reach.load']
 
@@ -56,7 +56,21 @@ VALUES = [
 ]
 # values for the parameters in the path itself (segment number / time, patch publish time, names)
 PATH_VALUES = ['0', '1', '-1', '99999999999999', '99999999999999999999999', '4294967296', 'abc', '1.5', '%00',
-               '١٢٣', '+1', '0x10', '1e3', '', ' ', 'init', '..', 'a' * 300]
+               '١٢٣', '+1', '0x10', '1e3', '', ' ', 'init', '..', 'a' * 300,
+               # names of things that exist, with and without the extension the route expects
+               'hand_made', 'hand_made.mpd', 'manifest_e', 'manifest_vod_aiv.mpd', 'bbb_v7', 'bbb_v7.mp4', 'BBB_V7',
+               'options.tjs', 'routemap.tjs', 'options.js', 'routemap.js', 'index.html', 'default.css',
+               'bbb', 'tears', 'noref', 'noaudio', 'unindexed', 'empty', 'c16mps']
+# request headers a proxy, a browser or a hostile client adds
+HEADER_SETS = [
+    {'X-Forwarded-Proto': 'https'}, {'X-HTTP-Scheme': 'https'}, {'X-Forwarded-Proto': 'gopher'},
+    {'X-Forwarded-Proto': 'https', 'X-Forwarded-Host': 'cdn.example.test'}, {'X-Forwarded-For': '1.2.3.4, 5.6.7.8'},
+    {'Host': 'evil"<&>.example.test'}, {'Origin': 'null'}, {'Origin': 'https://other.example.test'},
+    {'Range': 'bytes=0-'}, {'Range': 'bytes=5-1'}, {'Range': 'lines=1-2'}, {'Accept': '*/*;q=0'}, {'Accept-Encoding': 'br;q=1.0, *;q=0'},
+    {'Cookie': 'csrf=%%%; session=.'}, {'If-Modified-Since': 'garbage'}, {'If-None-Match': '"*"'},
+    {'Content-Type': 'application/json'}, {'Content-Length': '0'}, {'Authorization': 'Bearer x.y.z'},
+    {'Referer': 'javascript:alert(1)'}, {'User-Agent': ''},
+]
 NOW = datetime.datetime(2024, 6, 6, 12, 30, 7, 250000, tzinfo=UTC)
 START = '2024-06-06T00:00:00Z'
 
@@ -255,7 +269,12 @@ class Fuzz:
                 covered.add(name)
             url = base + ('&' if '?' in base else '?') + '&'.join(q)
             rp = {'a': {'url': url, 'now': NOW.isoformat()}}
-            r = self.request('GET', url, 'a', label, rp)
+            hdrs = None
+            if rng.random() < 0.12:
+                hdrs = rng.choice(HEADER_SETS)
+                rp['a']['headers'] = hdrs
+                res.count('a.requests_with_headers')
+            r = self.request('GET', url, 'a', label, rp, headers=hdrs)
             res.count('a.requests')
             status = 'none' if r is None else ('5xx' if r.status_code >= 500 else f'{r.status_code // 100}xx')
             res.case(f'A|{label.split(":")[0]}|{"+".join(n for n, _, _ in items)}|{"+".join(c for _, c, _ in items)}|{status}')
@@ -341,7 +360,12 @@ class Fuzz:
             else:
                 url = f'/dash/{mode}/{stream}/{manifest}?{qs_}'
             rp = {'a': {'url': url, 'now': NOW.isoformat()}}
-            r = self.request('GET', url, 'e', f'legal combination on {stream}', rp)
+            hdrs = None
+            if rng.random() < 0.25:
+                hdrs = rng.choice(HEADER_SETS)
+                rp['a']['headers'] = hdrs
+                res.count('e.requests_with_headers')
+            r = self.request('GET', url, 'e', f'legal combination on {stream}', rp, headers=hdrs)
             res.count('e.requests')
             res.evaluations += 1
             res.case(f'E|{stream}|{"page" if page else manifest}|{mode}|{"+".join(sorted(q))}|{getattr(r, "status_code", None)}')
@@ -408,6 +432,12 @@ class Fuzz:
             ('path:time', '/time/{v}', ('x',)),
             ('path:play', '/play/{mode}/bbb/{v}/index.html', ('live', 'vod')),
             ('path:stream', '/stream/{v}?ajax=1', ('x',)),
+            ('path:libs', '/libs/{v}', ('x',)),
+            ('path:play:stream', '/play/{mode}/{v}/hand_made.mpd/index.html', ('live', 'vod', 'odvod')),
+            ('path:play:mps', '/play/mps/{mode}/{v}/hand_made.mpd/index.html', ('live', 'vod')),
+            ('path:manifest:stream', '/dash/{mode}/{v}/hand_made.mpd?drm=all', ('live', 'vod')),
+            ('path:legacy', '/dash/{v}', ('x',)),
+            ('path:legacy:stream', '/dash/bbb/{v}', ('x',)),
             ('path:key', '/key/{v}', ('x',)),
         ]
         plan = [(label, tpl, mode, v) for label, tpl, modes in templates for mode in modes for v in PATH_VALUES]
@@ -452,6 +482,12 @@ class Fuzz:
             m = bytearray(data)
             m[b.start + 4:b.start + 8] = rng.choice([b'zzzz', b'moov', b'trun', b'\0\0\0\0', b'uuid', b'senc', b'avcC'])
             out.append((f'type@{b.name()}', bytes(m)))
+            if b.type in (b'pssh', b'trun', b'senc', b'saiz', b'saio', b'sidx', b'stsd', b'tenc', b'trex', b'mehd') and not b.children:
+                # any 32-bit field of a small leaf box can be a count: make each huge in turn
+                for off in range(b.body + 4, min(b.end - 3, b.body + 44), 4):
+                    m = bytearray(data)
+                    m[off:off + 4] = b'\x7f\xff\xff\xff'
+                    out.append((f'field-huge@{b.name()}+{off - b.body}', bytes(m)))
             if b.type in (b'trun', b'senc', b'saiz', b'stsd', b'saio', b'pssh', b'sidx', b'emsg', b'tfhd'):
                 m = bytearray(data)
                 off = b.body + 4
@@ -492,6 +528,9 @@ class Fuzz:
             p = FIXTURES / name
             if p.exists():
                 corpus.append((name, p.read_bytes()[:20000]))
+        from dlv.oracles import boxwriter as bw
+        corpus.append(('synthetic:pssh-v1', bw.full(b'pssh', 1, 0, bytes.fromhex('1077efecc0b24d02ace33c1e52e2fb4b') +
+                                                    struct.pack('>I', 2) + bytes(range(32)) + struct.pack('>I', 4) + b'data')))
         whole = (FIXTURES / 'bbb' / 'bbb_t1.mp4').read_bytes()
         per = ctx.scale(40, 2500)
         for ci, (cname, data) in enumerate(corpus):
@@ -864,6 +903,37 @@ def part_d(ctx: ShardCtx, res: ShardResult) -> None:
                 dirty = 0
             if i % 20 == 0 and ctx.out_of_time():
                 break
+        # whole bodies of another JSON type, and the public licence endpoint (no login, no token)
+        import base64
+        kid = base64.urlsafe_b64encode(bytes.fromhex(w.kids[0])).rstrip(b'=').decode() if w.kids else 'AAAA'
+        bodies = [[1, 2], 'abc', 5, None, True, {}, {'kids': [5]}, {'kids': 'x'}, {'kids': [None]}, {'kids': {}},
+                  {'kids': [kid], 'type': 5}, {'kids': [kid, kid]}, {'kids': ['!!!']}, {'kids': [kid * 40]}, {'type': 'temporary'}]
+        targets = [('clearkey', 'POST', '/clearkey', 'anon', False)]
+        for op in c15.catalogue(w, rng):
+            if op.get('kind') == 'json':
+                targets.append((op['name'], op['method'], op['url'], 'admin', bool(op.get('jwt'))))
+        plan = [(t, b) for t in targets for b in bodies]
+        rng.shuffle(plan)
+        for k, ((name, method, url, role, jwt), body) in enumerate(plan):
+            if k % ctx.nshards != ctx.shard and ctx.tier == 'quick':
+                continue
+            sess = w.sessions[role]
+            hdrs = dict(w.harvest[role].bearer()) if jwt else {}
+            try:
+                r = sess.request(method, url, json=body, headers=hdrs)
+            except Exception:
+                res.count('d.client_refused')
+                continue
+            res.count('d.requests')
+            res.count('d.whole_body_requests')
+            res.evaluations += 1
+            res.case(f'D|{name}|whole-body:{type(body).__name__}|{r.status_code // 100}xx')
+            if r.status_code >= 500:
+                info = w.env.rec.last_exception or {}
+                res.violation(f'5xx-{info.get("type", "unknown")}-in-{exc_site(info)}-body-{name}',
+                              f'{method} {url} with JSON body {body!r} as {role} -> {r.status_code}: {info.get("repr", "")[:200]}',
+                              {'d': {'whole_body': body, 'method': method, 'url': url, 'role': role}},
+                              traceback=info.get('traceback'))
     finally:
         w.close()
 
@@ -887,7 +957,7 @@ def run_shard(ctx: ShardCtx) -> ShardResult:
             r = ctx.replay['replay']
             if 'a' in r:
                 fz.env.clock.set(datetime.datetime.fromisoformat(r['a']['now']))
-                fz.request('GET', r['a']['url'], 'a', 'replay', r)
+                fz.request('GET', r['a']['url'], 'a', 'replay', r, headers=r['a'].get('headers'))
                 res.evaluations += 1
             elif 'b' in r and r['b'].get('hex') and 'corpus' in r['b']:
                 fz.judge_parse(r['b']['corpus'], r['b']['operator'], bool(r['b']['lazy']), bytes.fromhex(r['b']['hex']))
